@@ -4,8 +4,6 @@ import (
 	"github.com/buzzfeed/sso/internal/pkg/sessions"
 )
 
-func (o *Oracle) onBoot() {}
-
 func (o *Oracle) finish() {}
 
 // noteMinted registers a value the harness sealed itself (storage fault `mint`).
